@@ -246,6 +246,16 @@ func c17Oracle(c c17Case, tr *c17Trace, o c17Outcome) string {
 				return fmt.Sprintf("stored result carries %q, which is none of the sink's errors of this run", o.lastError)
 			}
 		}
+		if nReports > 0 && !mustStop {
+			// entities were rejected and reported, the run went on to its end: the recorded outcome
+			// carries the error (wherever in the run the rejected entities were, whatever the batch size)
+			if o.lastError == "" {
+				return fmt.Sprintf("%d entities were rejected and reported but the stored result has no error", nReports)
+			}
+			if !sinkErrs[o.lastError] {
+				return fmt.Sprintf("stored result carries %q, which is none of the sink's errors of this run", o.lastError)
+			}
+		}
 		if len(sinkErrs) == 0 && o.lastError != "" {
 			return fmt.Sprintf("the sink accepted every call but the stored result has error %q", o.lastError)
 		}
@@ -847,4 +857,22 @@ func TestVerif_C17_rerun(t *testing.T) {
 		}
 		run(c, t.Fatalf)
 	})
+}
+
+// F32 (fixed): with a log handler and batch size 1 a rejected entity is a batch
+// that is not split; wrappedSink took "no batch was split so far" for "nothing
+// failed so far" and unset the error at the next accepted batch: the run was
+// recorded as successful (and a reRun handler never fired) although entities
+// had been rejected. Batch sizes >= 2 recorded the error.
+func TestVerifProbe_F32(t *testing.T) {
+	defer kit.CleanupScratch()
+	env := &c17Env{h: newVJHub(vjOpts{})}
+	defer env.h.close()
+	for _, b := range []int{1, 2} {
+		if p, infra := env.job(c17Case{Driver: "job", N: 4, Fail: []int{0}, Batch: b}); infra != "" {
+			t.Fatalf("VERIF-INFRA %s", infra)
+		} else if p != "" {
+			t.Fatalf("F32 present (batch size %d, entity 0 of 4 rejected): %s", b, p)
+		}
+	}
 }
